@@ -632,3 +632,8 @@ mod tests {
         ));
     }
 }
+
+// verification hook (guard: cfg(kani)); contract harnesses live outside the repository
+#[cfg(kani)]
+#[path = "/verif/kani/ntp_proto/packet/v5/mod.rs"]
+mod verif;
